@@ -21,6 +21,9 @@ import (
 	"github.com/prometheus/prometheus/tsdb/chunks"
 	"github.com/prometheus/prometheus/util/annotations"
 
+	"github.com/thanos-io/thanos/internal/cortex/cortexpb"
+	"github.com/thanos-io/thanos/internal/cortex/querier/queryrange"
+	"github.com/thanos-io/thanos/pkg/queryfrontend"
 	"github.com/thanos-io/thanos/pkg/querysharding"
 	"github.com/thanos-io/thanos/pkg/store/labelpb"
 	"github.com/thanos-io/thanos/pkg/store/storepb"
@@ -531,6 +534,37 @@ func runEval(in input) (common.Case, error) {
 		merged = append(merged, r...)
 	}
 	sort.Slice(merged, func(i, j int) bool { return fmt.Sprint(merged[i].Labels) < fmt.Sprint(merged[j].Labels) })
+	// what the frontend makes of the shard responses: the real queryInstantCodec.MergeResponse
+	var mergedReal []obsSample
+	mergedFailed := anyFailed
+	if !anyFailed {
+		var resps []queryrange.Response
+		for _, sh := range shards {
+			v := &queryrange.Vector{}
+			for _, smp := range sh.([]obsSample) {
+				ps := &queryrange.Sample{SampleValue: float64(smp.Value), Timestamp: ts}
+				for _, l := range smp.Labels {
+					ps.Labels = append(ps.Labels, cortexpb.LabelAdapter{Name: l[0], Value: l[1]})
+				}
+				v.Samples = append(v.Samples, ps)
+			}
+			resps = append(resps, &queryrange.PrometheusInstantQueryResponse{Status: queryrange.StatusSuccess,
+				Data: queryrange.PrometheusInstantQueryData{ResultType: "vector",
+					Result: queryrange.PrometheusInstantQueryResult{Result: &queryrange.PrometheusInstantQueryResult_Vector{Vector: v}}}})
+		}
+		mr, err := queryfrontend.NewThanosQueryInstantCodec(false).MergeResponse(&queryfrontend.ThanosQueryInstantRequest{Query: q, Time: ts}, resps...)
+		if err != nil {
+			return c, fmt.Errorf("MergeResponse: %w", err)
+		}
+		for _, smp := range mr.(*queryrange.PrometheusInstantQueryResponse).Data.Result.GetVector().Samples {
+			o := obsSample{Value: int64(smp.SampleValue)}
+			for _, l := range smp.Labels {
+				o.Labels = append(o.Labels, [2]string{l.Name, l.Value})
+			}
+			mergedReal = append(mergedReal, o)
+		}
+		sort.Slice(mergedReal, func(i, j int) bool { return fmt.Sprint(mergedReal[i].Labels) < fmt.Sprint(mergedReal[j].Labels) })
+	}
 	// hash oracle for every series
 	set := map[string]bool{}
 	for _, l := range a.ShardingLabels() {
@@ -555,15 +589,15 @@ func runEval(in input) (common.Case, error) {
 		}
 	}
 	c.Coq = common.App("CEval", in.Q.coq(), common.List(dataCoq), common.N(uint64(in.N)), common.Bool(a.ShardBy()), strs(ls),
-		common.List(tbl), coqResult(unsharded, unFailed), common.List(shardsCoq))
-	c.Obs = map[string]any{"query": q, "by": a.ShardBy(), "labels": ls, "unsharded": unsharded, "unsharded_error": unFailed, "shards": shards}
+		common.List(tbl), coqResult(unsharded, unFailed), common.List(shardsCoq), coqResult(mergedReal, mergedFailed))
+	c.Obs = map[string]any{"query": q, "by": a.ShardBy(), "labels": ls, "unsharded": unsharded, "unsharded_error": unFailed, "shards": shards, "merged_by_frontend": mergedReal}
 	c.Class = fmt.Sprintf("eval by=%v", a.ShardBy())
 	if unFailed {
 		c.Class += " engine-error"
 	}
 	c.Nontrivial = len(unsharded) > 0 && in.N > 1
-	if !unFailed && (anyFailed || fmt.Sprint(merged) != fmt.Sprint(unsharded)) {
-		c.GoPred = fmt.Sprintf("%q: merged shard results %v differ from the unsharded result %v", q, merged, unsharded)
+	if !unFailed && (anyFailed || fmt.Sprint(merged) != fmt.Sprint(unsharded) || fmt.Sprint(mergedReal) != fmt.Sprint(unsharded)) {
+		c.GoPred = fmt.Sprintf("%q: shard results %v (merged by the frontend: %v) differ from the unsharded result %v", q, merged, mergedReal, unsharded)
 		c.Sig = "sharded-differs"
 		// known: a without() aggregation drops __name__, which the analyzer does not count among its labels
 		if in.Q.dropsName() && ((a.ShardBy() && set["__name__"]) || (!a.ShardBy() && !set["__name__"])) {
